@@ -1,5 +1,5 @@
 """C03 - futures account = average-cost margin account (DESIGN 5/C03). Session-monitor part."""
-from simlab.checklib import SessionCheck
+from simlab.checklib import MixedCheck
 from simlab.mon_orders import Registry
 from simlab.mon_accounts import AccountMonitor
 from .common import COMMON_REAL, COMMON_STUB
@@ -16,12 +16,20 @@ def profile(st):
     }
 
 
-CHECK = SessionCheck(
+CHECK = MixedCheck(
     prop='C03', profile=profile,
     monitors=lambda: [Registry(), AccountMonitor(('C03',))],
-    tiers={'quick': 1000, 'thorough': 60_000},
+    tiers={'quick': 300, 'thorough': 30_000},
+    ops_profile={'type': 'futures'}, ops_tiers={'quick': 4000, 'thorough': 600_000},
+    ops_nontrivial=lambda r: r['counters'].get('c03_compares', 0) >= 5,
     nontrivial=lambda r: r['counters'].get('c03_fill_reduce', 0) + r['counters'].get('c03_fill_close', 0) > 0,
-    rule='sessions (futures) with the MarginAccount reference fed by the order seams, compared after every operation and at every hook',
+    rule=('operation runs: real store/exchange/positions/orders/broker/strategy plumbing of a futures session (1-2 symbols sharing the '
+          'wallet, leverage 1-125, 4 fee rates), the seeded scheduler draws 5-60 operations (mark price, submit market/limit/stop '
+          'buy/sell, reduce-only exits partial/full/oversize, flush, fill any resting order at its price, cancel, cancel-all, '
+          'submissions exactly at / just above / far above the available margin, submit-then-cancel round trips, duplicates); plus '
+          'session runs with the same monitor. After every operation wallet, size, side, entry, unrealised PnL and available margin '
+          'are compared with the MarginAccount reference; InsufficientMargin must be raised iff notional/leverage exceeds the '
+          'reference margin. non-trivial = >=5 comparisons; distinct = trace signature + op kinds'),
     assumptions=[], real_components=COMMON_REAL, stub_components=COMMON_STUB,
     fault_kinds=['c03_oversize_fill', 'c03_fill_flip', 'c03_boundary_submissions'],
     probes=['c03_compares', 'c03_fill_open', 'c03_fill_increase', 'c03_fill_reduce', 'c03_fill_close', 'c03_fill_flip', 'rejections_seen'],
